@@ -20,7 +20,8 @@ Definition pow_id : nat := 100%nat.      (* 0 = np.exp, 1 = np.log, 100 = ** *)
 
 (* NumPy's floating-point warnings for scalar operations (divide by zero, overflow, invalid value; underflow is
    ignored by default): the result is NaN though no input was, or infinite though every input was finite.
-   Validated against NumPy on a grid of special values for + - * / ** exp log (harness/props/C04.py selftest). *)
+   An assumption about NumPy, validated against it on a grid of special values for + - * / ** exp log when the model was
+   written and exercised by every K_access run (division by zero, overflow, NaN production occur in the generated data). *)
 Definition fflagged (ins : list float) (r : float) : bool :=
   (is_nan r && negb (existsb is_nan ins)) || (is_infinity r && forallb fisfin ins).
 
